@@ -10,6 +10,7 @@ CONSTANTS MaxFaults      \* fault budget: at most this many non-return choices p
 ClassFile == JsonDeserialize(IOEnv.CLASSES_FILE)
 MCMro     == ClassFile.mro
 MCStatus  == ClassFile.status
+MCOwnVary == ClassFile.vary
 
 AllShapes == (SUBSET {"req", "rsrc", "resp"}) \ {{}}
 StacksUpTo(n) == UNION {[1..m -> AllShapes] : m \in 0..n}
@@ -36,6 +37,14 @@ C4RegClasses == {"Exception", "HTTPError", "HTTPNotFound", "AppA", "AppB", "AppC
 C4RegClassesQ == {"Exception", "HTTPNotFound", "AppA", "AppB"}
 C4RaiseQ == {"HTTPNotFound", "StSub", "AppA", "AppB", "AppD", "AppX", "Exception"}
 C4RenderQ == {"AppD", "HTTPNotFound"}
+(* session instances (several requests on one application, registrations in between) *)
+SRegClasses == {"AppA", "AppB", "HTTPNotFound"}
+SRegBehs    == {"set"}
+SRegBehs2   == {"set", "http"}
+SRaise      == {"AppD", "AppX"}
+SRaise2     == {"AppB", "AppD", "AppX", "HTTPNotFound"}
+SRender     == {"AppD"}
+OnlyRouted  == {"routed"}
 C4RegBehs    == {"set", "setbad", "http", "other"}
 C4RegBehsAll == {"set", "setbad", "noop", "http", "status", "other"}
 C4Raise  == {"HTTPError", "HTTPNotFound", "HTTPStatus", "StSub", "AppA", "AppB", "AppC", "AppD", "AppX", "Exception"}
@@ -71,18 +80,14 @@ XNotFound == NotFound
 XAfterDone == AfterDone
 XRespDone == RespDone
 XHandle == HandleCall
+XNextRequest == NextRequest
 
 MCNext == XAddHandler \/ XStart \/ XReqCall \/ XRsrcCall \/ XBeforeCall \/ XResponder \/ XAfterCall \/ XRespCall
           \/ XRenderOk \/ XRenderFail \/ XRenderBad \/ XReqSkip \/ XReqDone \/ XRoute \/ XRsrcSkip \/ XRsrcDone \/ XBeforeDone
-          \/ XNotFound \/ XAfterDone \/ XRespDone \/ XHandle
+          \/ XNotFound \/ XAfterDone \/ XRespDone \/ XHandle \/ XNextRequest
 
 TypeOK == /\ phase \in {"setup", "req", "route", "rsrc", "before", "responder", "after", "resp", "render", "handle", "end"}
           /\ faults <= MaxFaults /\ status \in 100..999
           /\ body.k \in {"none", "mark", "err", "e500", "stext", "hset", "hbad"}
 
-(* behaviour export (leg A): one JSON object per finished request *)
-Emit == phase = "end" =>
-    PrintT(ToJson([shape |-> [c \in 1..N |-> shape[c]], indep |-> indep, target |-> target, nb |-> nb, na |-> na,
-                   reg |-> reg, calls |-> calls, status |-> status, body |-> body, hdrs |-> hdrs, vary |-> vary,
-                   escaped |-> escaped, renderfail |-> (pend.back \in {"rendered", "fallback"}), fallback |-> (pend.back = "fallback")]))
 =============================================================================
